@@ -599,6 +599,55 @@ func run(c Case, ev *pbt.Ev) error {
 		for _, e := range ents {
 			lc.byName[e.Clean] = e
 		}
+		// state directory and stat file: checked before anything was read through this layer and again afterwards
+		// (the reported fetched size, hence the length of the JSON, changes in between)
+		checkState := func(phase string) error {
+			sd, eo, errno := lc.fs.Lookup(lc.fs.Root, ".stargz-snapshotter")
+			if errno != 0 {
+				return pbt.Violf("state-dir", "layer %d: lookup of the state directory errno %d", li, errno)
+			}
+			if eo.Attr.Ino != uint64(base)<<32|1 {
+				return pbt.Violf("state-dir", "layer %d: state directory inode %#x", li, eo.Attr.Ino)
+			}
+			sents, errno := lc.fs.Readdir(sd)
+			if errno != 0 || len(sents) != 1 {
+				return pbt.Violf("state-dir", "layer %d: state directory listing errno %d entries %d", li, errno, len(sents))
+			}
+			sf, seo, errno := lc.fs.Lookup(sd, sents[0].Name)
+			if errno != 0 || seo.Attr.Ino != uint64(base)<<32|2 || sents[0].Name != desc.Digest.String()+".json" {
+				return pbt.Violf("state-file", "layer %d: stat file %q errno %d inode %#x", li, sents[0].Name, errno, seo.Attr.Ino)
+			}
+			h, errno := lc.fs.Open(sf)
+			if errno != 0 {
+				return pbt.Violf("state-file", "layer %d: open stat file errno %d", li, errno)
+			}
+			buf2 := make([]byte, 4096)
+			n, errno := h.Read(buf2, 0)
+			if errno != 0 {
+				return pbt.Violf("state-file", "layer %d: read stat file errno %d", li, errno)
+			}
+			var sj struct {
+				Error       string `json:"error"`
+				Digest      string `json:"digest"`
+				Size        int64  `json:"size"`
+				FetchedSize int64  `json:"fetchedSize"`
+			}
+			if err := json.Unmarshal(buf2[:n], &sj); err != nil {
+				return pbt.Violf("state-file", "layer %d: stat file is not JSON: %v: %q", li, err, buf2[:n])
+			}
+			if sj.Digest != desc.Digest.String() || sj.Size != desc.Size || sj.FetchedSize < 0 || sj.FetchedSize > sj.Size || sj.Error != "" {
+				return pbt.Violf("state-file", "layer %d: stat file reports %+v for a %d byte layer %s", li, sj, desc.Size, desc.Digest)
+			}
+			for _, announced := range []uint64{seo.Attr.Size, func() uint64 { a, _ := lc.fs.Getattr(sf); return a.Size }()} {
+				if announced != uint64(n) {
+					return pbt.Violf("state-file", "layer %d (%s): the stat file announces %d bytes (lookup %d) but its content is %d bytes long: %q", li, phase, announced, seo.Attr.Size, n, buf2[:n])
+				}
+			}
+			return nil
+		}
+		if err := checkState("before reading"); err != nil {
+			return err
+		}
 		rootAttr, _ := lc.fs.Getattr(lc.fs.Root)
 		tree, err := lc.walk("", lc.fs.Root, rootAttr)
 		if err != nil {
@@ -609,42 +658,20 @@ func run(c Case, ev *pbt.Ev) error {
 		}
 		served = append(served, tree)
 		ev.Steps += len(ents) + 1
-		// state directory and stat file
-		sd, eo, errno := lc.fs.Lookup(lc.fs.Root, ".stargz-snapshotter")
-		if errno != 0 {
-			return pbt.Violf("state-dir", "layer %d: lookup of the state directory errno %d", li, errno)
+		// read something so that the fetched size moves, then look at the stat file again
+		for _, e := range ents {
+			if e.Hdr.Typeflag == tar.TypeReg && len(e.Content) > 0 && !strings.HasPrefix(path.Base(e.Clean), ".wh.") {
+				if fn, _, errno := lc.fs.Walk(e.Clean); errno == 0 {
+					if h, errno := lc.fs.Open(fn); errno == 0 {
+						h.Read(make([]byte, len(e.Content)), 0)
+						h.Release()
+					}
+				}
+				break
+			}
 		}
-		if eo.Attr.Ino != uint64(base)<<32|1 {
-			return pbt.Violf("state-dir", "layer %d: state directory inode %#x", li, eo.Attr.Ino)
-		}
-		sents, errno := lc.fs.Readdir(sd)
-		if errno != 0 || len(sents) != 1 {
-			return pbt.Violf("state-dir", "layer %d: state directory listing errno %d entries %d", li, errno, len(sents))
-		}
-		sf, seo, errno := lc.fs.Lookup(sd, sents[0].Name)
-		if errno != 0 || seo.Attr.Ino != uint64(base)<<32|2 || sents[0].Name != desc.Digest.String()+".json" {
-			return pbt.Violf("state-file", "layer %d: stat file %q errno %d inode %#x", li, sents[0].Name, errno, seo.Attr.Ino)
-		}
-		h, errno := lc.fs.Open(sf)
-		if errno != 0 {
-			return pbt.Violf("state-file", "layer %d: open stat file errno %d", li, errno)
-		}
-		buf2 := make([]byte, 4096)
-		n, errno := h.Read(buf2, 0)
-		if errno != 0 {
-			return pbt.Violf("state-file", "layer %d: read stat file errno %d", li, errno)
-		}
-		var sj struct {
-			Error       string `json:"error"`
-			Digest      string `json:"digest"`
-			Size        int64  `json:"size"`
-			FetchedSize int64  `json:"fetchedSize"`
-		}
-		if err := json.Unmarshal(buf2[:n], &sj); err != nil {
-			return pbt.Violf("state-file", "layer %d: stat file is not JSON: %v: %q", li, err, buf2[:n])
-		}
-		if sj.Digest != desc.Digest.String() || sj.Size != desc.Size || sj.FetchedSize < 0 || sj.FetchedSize > sj.Size || sj.Error != "" {
-			return pbt.Violf("state-file", "layer %d: stat file reports %+v for a %d byte layer %s", li, sj, desc.Size, desc.Digest)
+		if err := checkState("after reading"); err != nil {
+			return err
 		}
 	}
 	got := overlayMerge(served)
